@@ -46,7 +46,7 @@ of its summaries was acted upon.  A seventh, smaller round (9 properties x 2) de
 sub-agents in general terms (exhaustive small cases, boundary substitutions, a fixed set of large structured
 inputs) and asked for changes that such a tool is likely to MISS because they need LENGTH (a history or table
 long in a specific way: the 5462nd entry, more than 255 or 65535 samples in a chunk, the 33rd fragment) or
-COORDINATION (three or more fields changed together consistently); 6 of its 18 were caught at the first
+COORDINATION (three or more fields changed together consistently); 5 of its 18 were caught at the first
 attempt — the expected weak spot of bounded exhaustive checking, see §5.  Each change was **re-confirmed by `bin/try_seeded.sh`** in a fresh scratch worktree (demo
 passes without the patch, fails with it; the existing suite passes with it: 65 = 59 + 4 + 2 tests), stored as
 `seeded/<id>/{{patch.diff, demo.rs, notes.md, meta.json}}`, applied to /repo (`git apply`), run against the
